@@ -80,6 +80,7 @@ func runC07(c *Ctx) {
 	if pm := c.Progs["mod"]; pm != nil {
 		ruleEverySessionIDGetsAJar(c, pm, "C07.Y")
 		ruleNewIDShape(c, pm, "C07.Y")
+		ruleReaderEndsOnEveryReadError(c, pm, "C07.Y")
 	} else {
 		c.Unk("C07.Y", "program:mod", p, 0, "whole-module program not loaded")
 	}
